@@ -1,6 +1,7 @@
 import QModel.AlgebraIO
 import QModel.MachineIO
 import QModel.AtomsIO
+import QModel.AdaptiveIO
 /-! Model driver: one operation per line on stdin, one canonical result line on stdout.
     Run with `lake env lean --run Driver.lean`. -/
 
@@ -11,6 +12,7 @@ def dispatch (line : String) : String :=
     if cmd = "alg" || cmd = "oalg" || cmd = "callplain" then Alg.handle ws
     else if cmd = "mm" then MM.handle ws
     else if cmd.startsWith "ri." || cmd.startsWith "at." || cmd = "mol" then RI.handle ws
+    else if cmd = "c18direct" || cmd = "c18run" then AFB.handle ws
     else "bad-op"
 
 partial def loop (h : IO.FS.Stream) (out : IO.FS.Stream) : IO Unit := do
